@@ -242,7 +242,7 @@ def programs(tier, rng):
             else:
                 tree = num_tree(rng, t, depth)
                 if tree.nops() < 2 or not tree.has_tensor(): continue
-                if (tree.ops() & {"min", "max"}) and ("/" in tree.ops()): continue     # min/max are never fed NaN (0/0)
+                if (tree.ops() & {"min", "max"}) and ("/" in tree.ops() or aop == "/="): continue     # min/max are never fed NaN (0/0), and their +-0 must not become +-inf
                 if t in ("cf", "cd") and ("/" in tree.ops() or aop == "/="): continue
                 if integ and not int_ok(tree, aop): continue
                 if aop == "/=" and not integ and not tree.has_tensor(): continue
